@@ -131,6 +131,9 @@ func (m *Model) Facts(f *ssa.Function, spec map[string]bool) (map[*ssa.BasicBloc
 					}
 				}
 				out[l.String()] = l
+				if m.excludesEveryResult(out, l) {
+					continue // the helper returns none but the constants this path has ruled out
+				}
 				for _, rl := range m.resultFacts(l) {
 					out[rl.String()] = rl
 				}
@@ -961,6 +964,56 @@ func (m *Model) resultTest(l Lit) (call *ssa.Call, idx int, want string, neg boo
 		}
 	}
 	return nil, 0, "", false, false
+}
+
+// constResults: the constants a library function returns at result #idx, when every return
+// (of a function without a recover block) returns a constant there.
+func (m *Model) constResults(f *ssa.Function, idx int) (map[string]bool, bool) {
+	if f == nil || f.Blocks == nil || f.Recover != nil || !m.isLib(f) {
+		return nil, false
+	}
+	out := map[string]bool{}
+	for _, b := range liveBlocks(f) {
+		ret, ok := b.Instrs[len(b.Instrs)-1].(*ssa.Return)
+		if !ok {
+			continue
+		}
+		if idx >= len(ret.Results) {
+			return nil, false
+		}
+		k, isC := returnValue(ret, idx).(*ssa.Const)
+		if !isC {
+			return nil, false
+		}
+		out[constString(k)] = true
+	}
+	return out, len(out) > 0
+}
+
+// excludesEveryResult: l (just added to facts) says "result of call f(...) != c", and with the other
+// literals of that kind in facts every constant f can return is excluded: the edge is infeasible
+// (the default branch of an exhaustive switch over a helper's enum result).
+func (m *Model) excludesEveryResult(facts map[string]Lit, l Lit) bool {
+	call, idx, _, neg, ok := m.resultTest(l)
+	if !ok || !neg {
+		return false
+	}
+	cands, ok := m.constResults(call.Call.StaticCallee(), idx)
+	if !ok {
+		return false
+	}
+	excluded := map[string]bool{}
+	for _, x := range facts {
+		if c2, i2, w2, n2, ok := m.resultTest(x); ok && n2 && c2 == call && i2 == idx {
+			excluded[w2] = true
+		}
+	}
+	for c := range cands {
+		if !excluded[c] {
+			return false
+		}
+	}
+	return true
 }
 
 // hasEvent: the guards contain the event pseudo-literal.
